@@ -223,6 +223,22 @@ pub fn check_c17(plain: &LexResult, with_bom: &LexResult) -> Findings {
     if act.toks.first().is_some_and(|t| t.b0 < 3) {
         f.push(Finding::new("C17.bom-token", "", "a token covers the byte-order mark".into()));
     }
+    // the per-token accessors (not only the bulk view) report unchanged lines and columns
+    let (pb, wb) = (&plain.buffer, &with_bom.buffer);
+    for ((ip, tp), (iw, _)) in pb.iter_tokens_infos().zip(wb.iter_tokens_infos()) {
+        let a = [pb.get_token_start_line(ip).ok(), pb.get_token_start_column(ip).ok(), pb.get_token_end_line(ip).ok(), pb.get_token_end_column(ip).ok()];
+        let b = [wb.get_token_start_line(iw).ok(), wb.get_token_start_column(iw).ok(), wb.get_token_end_line(iw).ok(), wb.get_token_end_column(iw).ok()];
+        if a != b {
+            let which = ["start-line", "start-column", "end-line", "end-column"];
+            let k = (0..4).find(|&k| a[k] != b[k]).unwrap_or(0);
+            f.push(Finding::new(
+                "C17.accessor",
+                &format!("{}|{:?}", which[k], tp.token_type()),
+                format!("token {}: accessors report (line, column, end line, end column) {:?} without and {:?} with the mark", ip.get(), a, b),
+            ));
+            break;
+        }
+    }
     f
 }
 
